@@ -11,6 +11,13 @@
 //   * an alias behaves like its target;  a bool is the integer 0 or 1;  lists are "{a, b, c}".
 // The reference below interprets the generated statements directly (it never sees the text), so the comparison
 // is between the generator's intent and what KeyParser stored.
+// END / START OF THE TEXT (ext5): every generated text is parsed again in variants that only differ in how the text ENDS
+// (final end-of-line removed, "\r\n" / "\r" as the last end-of-line, blank lines / blanks behind the last line, the stop
+// key as a last line without end-of-line, NO stop key at all with and without final end-of-line) and in how it STARTS
+// (start key as the only line).  KeyParser.h: "KeyParser reads input line by line and parses each line separately.  It allows
+// for '\r' at the end of the line" -- the last line of a text is a line whether or not an end-of-line character follows it
+// (std::getline returns it and sets eofbit), so every variant has to store exactly what the newline-terminated text stores
+// and to run the same call-backs; see check_end_variants().
 // Not generated (behaviour not documented, see report): blanks before a comma inside a list of strings,
 // numbers with trailing garbage or out of range of their type, index 0 or negative, text before the start key.
 #include "c17_common.h"
@@ -88,6 +95,9 @@ const KeyDef KEYS[] = {
   { "old v int", K_INT, true, "v int", true },
   { "time (hh:mm:ss)", K_DOUBLE, false, nullptr, false },
   { "v ratio a:b", K_INT, true, nullptr, false },
+  // (ext5) a key with its own call-back (KeyParser.h: "add a keyword to the list, together with its call_back function"):
+  // the call-back counts its calls and then does what set_variable() does
+  { "counted int", K_INT, false, nullptr, false },
 };
 const int NKEYS = int(sizeof(KEYS) / sizeof(KEYS[0]));
 const std::vector<std::string> CHOICES = { "alpha", "beta gamma", "Delta_x" };
@@ -132,6 +142,8 @@ struct Vars
   std::vector<std::vector<double>> vdl = std::vector<std::vector<double>>(VSIZE);
   double t = 0.;
   std::vector<int> vr = std::vector<int>(VSIZE, -2);
+  int counted = -3; // variable of the call-back key
+  int calls = 0;    // number of times the call-back of "counted int" ran
   Vars() { co = make_coordinate(0.F, 0.F, 0.F); }
 };
 
@@ -171,7 +183,14 @@ struct Synthetic : KeyParser
     add_alias_key("v int", "old v int", true);
     add_key("time (hh:mm:ss)", &v.t);
     add_vectorised_key("v ratio a:b", &v.vr);
+    add_key("counted int", KeyArgument::INT, static_cast<KeywordProcessor>(&Synthetic::count_and_set), &v.counted);
     add_stop_key("End Synthetic Parameters");
+  }
+  //! call-back of "counted int"
+  void count_and_set()
+  {
+    ++v.calls;
+    set_variable();
   }
 };
 
@@ -475,8 +494,10 @@ value_text(const KeyDef& k, const json& v, SplitMix& g)
     }
 }
 
-std::string
-render(const json& c)
+//! the logical lines of the text: [start key line] + one line per statement (a continuation line holds "\\\n" inside);
+//! \a stop gets the stop key line
+std::vector<std::string>
+render_lines(const json& c, std::string& stop)
 {
   SplitMix gf{ uint64_t(c["fmt"].get<long>()) };
   std::vector<std::string> lines;
@@ -520,10 +541,15 @@ render(const json& c)
         }
       lines.push_back(line);
     }
-  lines.push_back(noisy_keyword("End Synthetic Parameters", gf) + ":=");
-  lines.push_back("an int := 424242"); // behind the stop key: must not be looked at
+  stop = noisy_keyword("End Synthetic Parameters", gf) + ":=";
+  return lines;
+}
+
+//! every physical line of \a lines followed by an end-of-line ("\r\n" if \a crlf)
+std::string
+join_text(const std::vector<std::string>& lines, const bool crlf)
+{
   std::string t;
-  const bool crlf = c["crlf"].get<bool>();
   for (const std::string& l : lines)
     {
       if (crlf)
@@ -543,6 +569,18 @@ render(const json& c)
         t += l + "\n";
     }
   return t;
+}
+
+const char* const TRAILER = "an int := 424242"; // behind the stop key: must not be looked at
+
+std::string
+render(const json& c)
+{
+  std::string stop;
+  std::vector<std::string> lines = render_lines(c, stop);
+  lines.push_back(stop);
+  lines.push_back(TRAILER);
+  return join_text(lines, c["crlf"].get<bool>());
 }
 
 // ---- reference ---------------------------------------------------------------------------------------
@@ -569,6 +607,10 @@ apply(Expect& e, const json& st_json)
 {
   const Stmt st = decode(st_json);
   const int type = st.type;
+  // (a keyword without value: the call-back runs -- KeyParser::process_key() calls it for every recognised keyword -- and
+  //  "if the keyword had no value, set_variable will do nothing")
+  if (type == 4 && std::string(KEYS[target_of(st.key)].name) == "counted int")
+    e.v.calls++;
   if (type == 1 || type == 2 || type == 3 || type == 4)
     return;
   if (type >= 5)
@@ -649,6 +691,11 @@ apply(Expect& e, const json& st_json)
     e.v.t = ref_double(v);
   else if (name == "v ratio a:b")
     e.v.vr[ix] = int(v.get<long>());
+  else if (name == "counted int")
+    {
+      e.v.counted = int(v.get<long>());
+      e.v.calls++;
+    }
 }
 
 template <class A>
@@ -727,6 +774,8 @@ first_difference(const Vars& a, const Vars& x)
   if (a.vdl != x.vdl) return "v double list";
   if (a.t != x.t) return "time (hh:mm:ss)";
   if (a.vr != x.vr) return "v ratio a:b";
+  if (a.counted != x.counted) return "counted int";
+  if (a.calls != x.calls) return "counted int (number of call-back calls)";
   return "";
 }
 
@@ -750,6 +799,166 @@ removed_key(const json& c)
         return k;
     }
   return -1;
+}
+
+
+// ---- (ext5) how a text ENDS and STARTS ------------------------------------------------------------------
+// KeyParser.h: "KeyParser reads input line by line and parses each line separately.  It allows for '\r' at the end of the
+// line (as in files originating in DOS/Windows)."  A line is what std::getline returns; the last line of a text is a line
+// whether or not an end-of-line character follows it.  Hence, with B = the generated text (every line terminated):
+//   (E1) B with the stop key as LAST line and no end-of-line behind it,
+//   (E2) the same with "\r\n" (or, for a "\r\n" text, a bare "\n") as the last end-of-line,
+//   (E3) the same followed by blank lines / blanks / a blank last line without end-of-line,
+//   (E4) B (a line behind the stop key) with its final end-of-line removed
+//        have to store what B stores, run the same call-backs, and return / throw what B returns / throws
+//        ("add a keyword that when encountered, will stop the parsing": nothing behind the stop key is looked at);
+//   (N1) B without the stop key line (every line terminated),
+//   (N2) N1 with the final end-of-line removed: the last line is a real "key := value" line without end-of-line,
+//   (N3) N1 with a bare "\r" behind the last line (a DOS file cut between '\r' and '\n'),
+//   (N4) N1 followed by blank lines / blanks without final end-of-line,
+//   (N5) N1 with "\r\n" (resp. "\n") as the last end-of-line
+//        have to store what B stores and run the same call-backs (every line of N* is a line of B in front of B's stop key).
+//        What parse() RETURNS without a stop key is not documented (the code: read_and_parse_line() warns "early EOF or bad
+//        file", calls stop_parsing(), and parse_header() returns Succeeded::yes): only demanded is that N2..N5 return / throw
+//        what N1 returns / throws -- whether an end-of-line follows the last line cannot matter.
+//   (S1) the start key line alone + end-of-line, (S2) the start key line alone without end-of-line:
+//        same return value, all variables keep their defaults.
+// The variants go through the three parse() overloads in turn (string, std::istream&, file name).
+struct Run
+{
+  bool ok = false, threw = false;
+  std::string what;
+  Vars v;
+};
+Run
+run_text(const std::string& text, const int removed, const int how)
+{
+  Run r;
+  Synthetic q;
+  if (removed >= 0)
+    (void)q.remove_key(c17::ref_standardise(KEYS[removed].name));
+  c17::AllocGuard guard;
+  try
+    {
+      if (how % 3 == 0)
+        r.ok = q.parse(text, false);
+      else if (how % 3 == 1)
+        {
+          std::istringstream in(text);
+          r.ok = q.parse(in, false);
+        }
+      else
+        {
+          const std::string fn = c17::scratch_dir() + "/kpv.par";
+          c17::write_file(fn, text);
+          r.ok = q.parse(fn.c_str(), false);
+        }
+    }
+  catch (const stir_verif::AssertionFailure&)
+    {
+      throw;
+    }
+  catch (const std::exception& ex)
+    {
+      r.threw = true;
+      r.what = ex.what();
+    }
+  guard.stop();
+  r.v = q.v;
+  return r;
+}
+
+std::string
+without_last_eol(std::string t)
+{
+  if (!t.empty() && t.back() == '\n')
+    t.pop_back();
+  if (!t.empty() && t.back() == '\r')
+    t.pop_back();
+  return t;
+}
+
+Result
+check_end_variants(const json& c, const int removed, const Vars& base_v, const bool base_ok, const bool base_threw)
+{
+  std::string stop;
+  const std::vector<std::string> body = render_lines(c, stop);
+  std::vector<std::string> with_stop = body;
+  with_stop.push_back(stop);
+  const bool crlf = c["crlf"].get<bool>();
+  const std::string S = join_text(with_stop, crlf); // ... stop key line, terminated
+  const std::string N = join_text(body, crlf);      // no stop key, terminated
+  const std::string other_eol = crlf ? "\n" : "\r\n";
+  SplitMix g{ uint64_t(c["fmt"].get<long>()) * 31 + 7 };
+  static const char* const TAILS[] = { "\n", " ", "  \n\t\n", "\n   ", "\r\n\r\n", "\t", " \r\n\t", "\n\n\n" };
+  const std::string tail_s = TAILS[g.range(0, 7)], tail_n = TAILS[g.range(0, 7)];
+  struct V
+  {
+    const char* name;
+    std::string text;
+    bool stop;
+  };
+  const std::vector<V> variants = {
+    { "E1 stop key is the last line, no end-of-line behind it", without_last_eol(S), true },
+    { "E2 stop key is the last line, other end-of-line convention behind it", without_last_eol(S) + other_eol, true },
+    { "E3 blank lines / blanks behind the stop key line", S + tail_s, true },
+    { "E4 line behind the stop key, final end-of-line removed", without_last_eol(S + TRAILER + "\n"), true },
+    { "N1 no stop key, every line terminated", N, false },
+    { "N2 no stop key, final end-of-line removed", without_last_eol(N), false },
+    { "N3 no stop key, bare '\\r' behind the last line", without_last_eol(N) + "\r", false },
+    { "N4 no stop key, blank lines / blanks behind the last line", N + tail_n, false },
+    { "N5 no stop key, other end-of-line convention behind the last line", without_last_eol(N) + other_eol, false },
+  };
+  const int how0 = int(g.range(0, 2));
+  Run n1;
+  for (std::size_t i = 0; i < variants.size(); ++i)
+    {
+      const V& v = variants[i];
+      // (N2, the central variant, goes through all three overloads over the cases; file-based for one variant in three)
+      const int how = how0 + int(i);
+      const Run r = run_text(v.text, removed, how);
+      const std::string ctx = cat("\n  variant: ", v.name, "; overload: ", how % 3 == 0 ? "parse(string)" : how % 3 == 1 ? "parse(istream&)" : "parse(filename)",
+                                  "\n--- text of the variant:\n", c17::enc(v.text), "<end of text>");
+      const std::string diff = first_difference(r.v, base_v);
+      VF_CHECK(diff.empty(), "the end of the text changes what is stored: '", diff,
+               "' differs from what the same lines store in the text whose lines are all terminated and followed by the stop key", ctx);
+      if (v.stop)
+        VF_CHECK(r.ok == base_ok && r.threw == base_threw, "the end of the text changes the result of parse(): returns ", r.ok, "/threw ", r.threw,
+                 ", the newline-terminated text gave ", base_ok, "/threw ", base_threw, ctx);
+      else if (i == 4)
+        {
+          n1 = r;
+          VF_CHECK(r.threw == base_threw, "without the stop key line parse() threw ", r.threw, ", with it ", base_threw, ctx);
+          stats().cls(r.threw ? "no stop key: error() as with the stop key" : r.ok ? "no stop key: parse() returns true" : "no stop key: parse() returns false");
+        }
+      else
+        VF_CHECK(r.ok == n1.ok && r.threw == n1.threw, "no stop key: the end-of-line behind the LAST line changes the result of parse(): returns ", r.ok,
+                 "/threw ", r.threw, ", with every line terminated ", n1.ok, "/threw ", n1.threw, ctx);
+    }
+  c17::clean_scratch();
+  // ---- the start of the text: the start key as the only line
+  {
+    const std::string first = join_text({ body[0] }, crlf); // (body[0] is the start key line: this function is only called with one)
+    const Run s1 = run_text(first, removed, how0 + 1), s2 = run_text(without_last_eol(first), removed, how0 + 1);
+    const std::string ctx = cat("\n--- text: ", c17::enc(first));
+    VF_CHECK(!s1.threw && !s2.threw, "a text that consists of the start key line raised an exception: ", s1.what, s2.what, ctx);
+    VF_CHECK(s1.ok == s2.ok, "start key line alone: parse() returns ", s1.ok, " with and ", s2.ok, " without end-of-line", ctx);
+    const Vars dflt;
+    VF_CHECK(first_difference(s1.v, dflt).empty() && first_difference(s2.v, dflt).empty(), "start key line alone: the variable '",
+             first_difference(s1.v, dflt), first_difference(s2.v, dflt), "' lost its default", ctx);
+    // not documented what a BOM / an empty first line / a blank first line do: observed only, with the clause
+    // "parsed faithfully or rejected": if parse() accepts such a text it has to have stored what B stores
+    static const char* const PREFIX[] = { "\xEF\xBB\xBF", "\n", " \t\n", "\r\n" };
+    static const char* const PREFIX_NAME[] = { "UTF-8 BOM", "empty first line", "blank first line", "empty first line (\\r\\n)" };
+    const int pi = int(g.range(0, 3));
+    const Run rp = run_text(PREFIX[pi] + S, removed, how0);
+    stats().cls(std::string("start of text | ") + PREFIX_NAME[pi] + (rp.threw ? " -> error()" : rp.ok ? " -> accepted" : " -> rejected (false)"));
+    if (rp.ok && !rp.threw)
+      VF_CHECK(first_difference(rp.v, base_v).empty(), "a text with a ", PREFIX_NAME[pi], " in front of the start key is accepted but '",
+               first_difference(rp.v, base_v), "' is not what the text says", ctx);
+  }
+  stats().cls("end-of-text / start-of-text variants compared (9 + 3 parses)");
+  return Result::pass();
 }
 
 Result
@@ -849,6 +1058,9 @@ check(const json& c)
   VF_CHECK(a.vdl == x.vdl, "v double list differs", ctx);
   VF_CHECK(a.t == x.t, "time (hh:mm:ss): ", a.t, " expected ", x.t, ctx);
   VF_CHECK(a.vr == x.vr, "v ratio a:b: ", show(a.vr), " expected ", show(x.vr), ctx);
+  VF_CHECK(a.counted == x.counted, "counted int (call-back key): ", a.counted, " expected ", x.counted, ctx);
+  if (!e.error) // (an index on this scalar key is an error() raised from inside the call-back)
+    VF_CHECK(a.calls == x.calls, "the call-back of 'counted int' ran ", a.calls, " times, expected ", x.calls, ctx);
   if (!e.a2.is_null())
     VF_CHECK(same_array2(a.a2, e.a2), "array 2d differs from ", e.a2.dump(), ctx);
   if (!e.a3.is_null())
@@ -902,6 +1114,13 @@ check(const json& c)
     VF_CHECK(first_difference(ps.v, p.v).empty(), "parse(istream&) stores another value than parse(string) in '", first_difference(ps.v, p.v), "'", ctx);
     VF_CHECK(first_difference(pf.v, p.v).empty(), "parse(filename) stores another value than parse(string) in '", first_difference(pf.v, p.v), "'", ctx);
     stats().cls("overloads parse(istream&) / parse(filename) compared with parse(string)");
+  }
+
+  // ---- (ext5) the same lines with other ends / starts of the text
+  {
+    const Result r = check_end_variants(c, removed, p.v, ok, threw);
+    if (r.failed())
+      return r;
   }
 
   // ---- the synthetic parser's own print must be re-parsable and idempotent after one round
